@@ -137,6 +137,23 @@ Example C12_cursor_sources_run :
   /\ List.length (comments (e_rs e)) = 3%nat.
 Proof. vm_compute. repeat split; reflexivity. Qed.
 
+
+(* ... hence the invariant of the position space (line table strictly increasing and inside the file so
+   far, every recorded position and comment between base and cursor) is kept by the translated sources
+   themselves, and they never move the cursor back *)
+Theorem C12_translated_sources_keep_the_position_invariant :
+  forall s kind id pos sp name isend ds,
+  J s 0 -> Forall dec_ok ds ->
+  let s1 := e_rs (exec_list applySpace_src (space_env s kind id pos sp)) in
+  let s2 := e_rs (exec_list applyDecorations_src (decs_env s kind id name isend ds)) in
+  (J s1 0 /\ cursor s <= cursor s1) /\ (J s2 0 /\ cursor s <= cursor s2).
+Proof.
+  intros s kind id pos sp name isend ds HJ Hok. cbv zeta.
+  rewrite (proj1 (applySpace_source_is_model s kind id pos sp)).
+  rewrite (proj1 (applyDecorations_source_is_model s id kind name isend ds)).
+  split; [split; [apply apply_space_J; exact HJ | apply apply_space_cursor] | apply apply_decs_J; assumption].
+Qed.
+
 Print Assumptions C12_position_space_coherent.
 Print Assumptions C12_cursor_monotone.
 Print Assumptions C12_files_disjoint.
@@ -148,3 +165,4 @@ Print Assumptions C12_fileSize_source_computes_the_model.
 Print Assumptions C12_cursor_sources_are_within_the_language.
 Print Assumptions C12_cursor_sources_run.
 Print Assumptions C12_restorefile_finishes_as_the_model.
+Print Assumptions C12_translated_sources_keep_the_position_invariant.
